@@ -139,6 +139,8 @@ struct Slot {
     parker: Arc<Parker>,
     pthread: u64,
     sigq: VecDeque<(i32, u32)>,
+    /// simulated signal mask (bit n = signal n blocked); only the queued signals honour it
+    sigmask: u64,
     wake: Wake,
     prio: i64,
     wait_seq: u64,
@@ -240,7 +242,7 @@ struct State {
     replay_idx: usize,
     counters: BTreeMap<&'static str, u64>,
     knobs: BTreeMap<&'static str, u64>,
-    handlers: BTreeMap<i32, SigHandlerFn>,
+    handlers: BTreeMap<i32, (SigHandlerFn, u64, bool)>,
     wait_seq: u64,
     rr_left: u32,
     pct_changes: Vec<u64>,
@@ -545,11 +547,12 @@ pub fn point(label: &'static str) {
 
 fn deliver_signals(tid: Tid) {
     loop {
-        let (sig, h) = {
+        let (sig, h, saved) = {
             let mut st = lock();
             if !st.active {
                 return;
             }
+            let mask = st.threads[tid].sigmask;
             let q = &mut st.threads[tid].sigq;
             if q.is_empty() {
                 return;
@@ -559,19 +562,58 @@ fn deliver_signals(tid: Tid) {
                     e.1 -= 1;
                 }
             }
-            let Some(pos) = q.iter().position(|e| e.1 == 0) else {
+            // a blocked signal stays pending
+            let Some(pos) = q.iter().position(|e| e.1 == 0 && (mask >> (e.0 as u64 & 63)) & 1 == 0) else {
+                if q.iter().any(|e| e.1 == 0) {
+                    *st.counters.entry("signal.held-by-mask").or_insert(0) += 1;
+                }
                 return;
             };
             let (sig, _) = q.remove(pos).expect("pos");
             let h = st.handlers.get(&sig).copied();
             *st.counters.entry("signal.delivered").or_insert(0) += 1;
-            (sig, h)
+            // like the kernel: while the handler runs, the signal itself (unless SA_NODEFER) and the
+            // handler's sa_mask are blocked; the old mask is restored when the handler returns
+            let saved = mask;
+            if let Some((_, sa_mask, nodefer)) = h {
+                let mut m = mask | sa_mask;
+                if !nodefer {
+                    m |= 1u64 << (sig as u64 & 63);
+                }
+                st.threads[tid].sigmask = m;
+            }
+            (sig, h, saved)
         };
         match h {
-            Some(SigHandlerFn::Plain(f)) => f(sig),
-            Some(SigHandlerFn::Info(f)) => f(sig, std::ptr::null_mut(), std::ptr::null_mut()),
+            Some((SigHandlerFn::Plain(f), ..)) => f(sig),
+            Some((SigHandlerFn::Info(f), ..)) => f(sig, std::ptr::null_mut(), std::ptr::null_mut()),
             None => {}
         }
+        if h.is_some() {
+            // sigreturn: the mask saved in the signal frame goes to whichever thread executes the
+            // return (a handler that switched coroutines may come back on another thread, much later)
+            if let Some(cur) = TID.try_with(Cell::get).ok().flatten() {
+                let mut st = lock();
+                if st.active && cur < st.threads.len() {
+                    st.threads[cur].sigmask = saved;
+                }
+            }
+        }
+    }
+}
+
+/// Simulated signal mask of the calling thread (bit n = signal n blocked).
+pub fn sigmask_get() -> u64 {
+    let Some(tid) = TID.try_with(Cell::get).ok().flatten() else { return 0 };
+    let st = lock();
+    st.threads.get(tid).map_or(0, |t| t.sigmask)
+}
+
+pub fn sigmask_set(mask: u64) {
+    let Some(tid) = TID.try_with(Cell::get).ok().flatten() else { return };
+    let mut st = lock();
+    if let Some(t) = st.threads.get_mut(tid) {
+        t.sigmask = mask;
     }
 }
 
@@ -803,6 +845,7 @@ pub(crate) fn register_thread(name: String) -> Spawned {
         parker: Arc::new(Parker::new()),
         pthread: 0,
         sigq: VecDeque::new(),
+        sigmask: 0,
         wake: Wake::None,
         prio,
         wait_seq: 0,
@@ -971,8 +1014,8 @@ pub fn counter(name: &'static str) -> u64 {
 // ---------------------------------------------------------------------------------------------
 // signals
 
-pub fn set_signal_handler(sig: i32, h: SigHandlerFn) {
-    _ = lock().handlers.insert(sig, h);
+pub fn set_signal_handler(sig: i32, h: SigHandlerFn, sa_mask: u64, nodefer: bool) {
+    _ = lock().handlers.insert(sig, (h, sa_mask, nodefer));
 }
 
 /// Queue an asynchronous signal for the simulated thread whose pthread id is `pthread`.
@@ -999,9 +1042,12 @@ pub fn queue_signal(pthread: u64, sig: i32) -> bool {
     if delay > 0 {
         *st.counters.entry("fault.late_signal").or_insert(0) += 1;
     }
+    let deliverable = (st.threads[i].sigmask >> (sig as u64 & 63)) & 1 == 0;
     if let TState::Blocked { .. } = st.threads[i].st {
-        st.threads[i].st = TState::Runnable;
-        st.threads[i].wake = Wake::Signal;
+        if deliverable {
+            st.threads[i].st = TState::Runnable;
+            st.threads[i].wake = Wake::Signal;
+        }
     }
     true
 }
@@ -1057,6 +1103,7 @@ pub fn start(cfg: Config) {
         parker: Arc::new(Parker::new()),
         pthread: unsafe { libc::pthread_self() } as u64,
         sigq: VecDeque::new(),
+        sigmask: 0,
         wake: Wake::None,
         prio,
         wait_seq: 0,
